@@ -244,7 +244,23 @@ def _ub_has_external_cases():
             yield {"json_struct": {"choices": {"l": [a]}, "children": [b], "type": "survey"}}
 
 
+def _ub_escape_cases():
+    """Markup characters, entity-like fragments (text that already looks escaped), CDATA end, quotes: every string of up
+    to four tokens."""
+    import itertools
+
+    toks = ["&", "<", ">", ";", "amp", "lt", "gt", "quot", "#38", "a", "]]>", '"', "'", " "]
+    seen = set()
+    for n in range(0, 5):
+        for combo in itertools.product(toks, repeat=n):
+            t = "".join(combo)
+            if t not in seen:
+                seen.add(t)
+                yield {"text": t}
+
+
 EXHAUSTIVE = {
+    "pyxform.utils.escape_text_for_xml": _ub_escape_cases,
     "pyxform.utils.default_is_dynamic": _ub_dynamic_cases,
     "pyxform.utils.external_choices_to_csv": _ub_csv_cases,
     "pyxform.utils.has_external_choices": _ub_has_external_cases,
